@@ -26,7 +26,9 @@ theorem copyCtor_spec (P : Params) (n0 : Nat) (S : Nat → Bool) (o : Table) (ob
       (copyCtor o)
       (fun t' h' => ∃ nb, n0 ≤ nb ∧ nb ≠ ob ∧ t' = { o with entries := some nb } ∧ TableAt P h' nb o.lgCur o.num ∧
         TableAt P h' ob o.lgCur o.num ∧ h'.ids = nb :: ids ∧
-        (∀ b' lg' num', b' < nb → TableAt P h0 b' lg' num' → TableAt P h' b' lg' num')) := by
+        (∀ b' lg' num', b' < nb → TableAt P h0 b' lg' num' → TableAt P h' b' lg' num') ∧
+        (∀ i, i < 2 ^ o.lgCur → wordAt h' nb i = wordAt h0 ob i ∧
+          ((∃ v, stAt h0 ob i = .live v ∧ stAt h' nb i = .live v) ∨ (stAt h0 ob i = .raw ∧ stAt h' nb i = .raw)))) := by
   obtain ⟨ent, lgCur, lgNom, rf, num, theta, theta0, isEmpty⟩ := o
   simp only at hb ⊢
   subst hb
@@ -42,7 +44,8 @@ theorem copyCtor_spec (P : Params) (n0 : Nat) (S : Nat → Bool) (o : Table) (ob
     (fun k h' => HasCells h' ob (2 ^ lgCur) ∧ HasCells h' h.next (2 ^ lgCur) ∧
       ((∀ b' j, b' ≠ h.next → wordAt h' b' j = wordAt h b' j ∧ stAt h' b' j = stAt h b' j) ∧
        (∀ b' m, b' ≠ h.next → HasCells h b' m → HasCells h' b' m)) ∧
-      (∀ j, j < k → wordAt h' h.next j = wordAt h ob j ∧ SlotOK h' h.next j) ∧
+      (∀ j, j < k → wordAt h' h.next j = wordAt h ob j ∧ SlotOK h' h.next j ∧
+        ((∃ v, stAt h ob j = .live v ∧ stAt h' h.next j = .live v) ∨ (stAt h ob j = .raw ∧ stAt h' h.next j = .raw))) ∧
       (∀ j, k ≤ j → j < 2 ^ lgCur → stAt h' h.next j = .raw) ∧ h'.ids = h.next :: ids ∧ h'.next = h.next + 1)
     (fun i => do
       let k ← readWord ob i
@@ -55,8 +58,8 @@ theorem copyCtor_spec (P : Params) (n0 : Nat) (S : Nat → Bool) (o : Table) (ob
     have hvo : ∀ j, wordAt h2 ob j = wordAt h ob j ∧ stAt h2 ob j = stAt h ob j := fun j => hvall ob j hne
     simp only [Nat.zero_add] at hnew
     apply SafeF.pure
-    refine ⟨h.next, hn, fun e => hne e.symm, rfl, ?_, ?_, hid2, ?_⟩
-    · exact ht.copyOf (fun j hj => (hnew j hj).1) ⟨hcn, by omega, fun j hj => (hnew j hj).2⟩
+    refine ⟨h.next, hn, fun e => hne e.symm, rfl, ?_, ?_, hid2, ?_, fun i hi => ⟨(hnew i hi).1, (hnew i hi).2.2⟩⟩
+    · exact ht.copyOf (fun j hj => (hnew j hj).1) ⟨hcn, by omega, fun j hj => (hnew j hj).2.1⟩
     · exact ht.of_views hco (by have := ht.slots.lt; omega) (fun j => (hvo j).1) (fun j _ => Or.inl (hvo j).2)
     · intro b' lg' num' hb' ht'
       have hb'' : b' ≠ h.next := by omega
@@ -86,11 +89,11 @@ theorem copyCtor_spec (P : Params) (n0 : Nat) (S : Nat → Bool) (o : Table) (ob
         · intro j hj
           by_cases hji : j = i
           · subst hji
-            refine ⟨by rw [hw, (hvo j).1], Or.inr ⟨by rw [hw]; exact hk, v, hs⟩⟩
+            refine ⟨by rw [hw, (hvo j).1], Or.inr ⟨by rw [hw]; exact hk, v, hs⟩, Or.inl ⟨v, hv, hs⟩⟩
           · have hw' := sb.word h.next j (fun x => hji x.2)
             have hs' := sb.st h.next j (fun x => hji x.2)
-            obtain ⟨a, b'⟩ := hnew j (by omega)
-            exact ⟨by rw [hw']; exact a, b'.of_views hw' hs'⟩
+            obtain ⟨a, b', c'⟩ := hnew j (by omega)
+            exact ⟨by rw [hw']; exact a, b'.of_views hw' hs', by rw [hs']; exact c'⟩
         · intro j h1' h2'
           rw [sb.st h.next j (fun x => by omega)]
           exact hraw j (by omega) h2'
@@ -110,11 +113,16 @@ theorem copyCtor_spec (P : Params) (n0 : Nat) (S : Nat → Bool) (o : Table) (ob
       · intro j hj
         by_cases hji : j = i
         · subst hji
-          refine ⟨by rw [hw, ← (hvo j).1, hk0], Or.inl ⟨hw, by rw [hs]; exact hraw j (Nat.le_refl _) hi'⟩⟩
+          have hrawsrc : stAt h ob j = .raw := by
+            rcases hso with ⟨_, hr'⟩ | ⟨hnz, _⟩
+            · exact hr'
+            · exact absurd (by rw [← (hvo j).1]; exact hk0) hnz
+          refine ⟨by rw [hw, ← (hvo j).1, hk0], Or.inl ⟨hw, by rw [hs]; exact hraw j (Nat.le_refl _) hi'⟩,
+            Or.inr ⟨hrawsrc, by rw [hs]; exact hraw j (Nat.le_refl _) hi'⟩⟩
         · have hw' := sb.word h.next j (fun x => hji x.2)
           have hs' := sb.st h.next j (fun x => hji x.2)
-          obtain ⟨a, b'⟩ := hnew j (by omega)
-          exact ⟨by rw [hw']; exact a, b'.of_views hw' hs'⟩
+          obtain ⟨a, b', c'⟩ := hnew j (by omega)
+          exact ⟨by rw [hw']; exact a, b'.of_views hw' hs', by rw [hs']; exact c'⟩
       · intro j h1' h2'
         rw [sb.st h.next j (fun x => by omega)]
         exact hraw j (by omega) h2'
